@@ -273,6 +273,9 @@ HARNESS(h_too_long_absent_1) { too_long<false, 1>(); }
 HARNESS(h_too_long_absent_2) { too_long<false, 2>(); }
 HARNESS(h_too_long_present) { too_long<true, 0>(); }
 
+static bool counters_kept(const stats& a, const stats& b) {   // growth / shrink / prefix-split counters of b are not below those of a
+  return b.g4 >= a.g4 && b.g16 >= a.g16 && b.g48 >= a.g48 && b.g256 >= a.g256 && b.s4 >= a.s4 && b.s16 >= a.s16 && b.s48 >= a.s48 && b.s256 >= a.s256 && b.splits >= a.splits;
+}
 // history independence and emptiness: insert(k) then remove(k) restores all current-state getters; clear() zeroes them
 template <unsigned N> static void roundtrip(const std::uint64_t (&keys)[N]) {
   static db_t d;
@@ -299,8 +302,10 @@ template <unsigned N, bool EXTRA> static void clear_all(const std::uint64_t (&ke
   build(d, keys);
   (void)in_u8();
   if constexpr (EXTRA) { std::uint8_t v = 9; (void)d.insert(0xFFEEDDCCBBAA9988ULL, vv(&v, 1)); }
+  const stats sb = snap(d);
   d.clear();
   const stats s = snap(d);
+  PROP(counters_kept(sb, s), "C10: growth, shrink and prefix-split counters never decrease - clear() dissolves nodes but is not a statistics reset");
   PROP(s.mem == 0 && s.leaves == 0 && s.i4 == 0 && s.i16 == 0 && s.i48 == 0 && s.i256 == 0, "C10: a cleared index reports no nodes and no memory");
   PROP(d.empty(), "C10: a cleared index is empty");
   PROP(verif_live_allocs() == live00, "C10: clear() returns every block to the allocator");
@@ -324,6 +329,7 @@ template <unsigned N, unsigned DEL> static void clear_big() {
   PROP(verif_live_allocs() == live00 + (N - 1) + 1, "C10: blocks held from the allocator match the reported nodes");
   d.clear();
   const stats s = snap(d);
+  PROP(counters_kept(s1, s), "C10: growth, shrink and prefix-split counters never decrease - clear() dissolves nodes but is not a statistics reset");
   PROP(s.mem == 0 && s.leaves == 0 && s.i4 == 0 && s.i16 == 0 && s.i48 == 0 && s.i256 == 0, "C10: a cleared index reports no nodes and no memory");
   PROP(verif_live_allocs() == live00, "C10: clear() returns every block to the allocator");
   WITNESS();
